@@ -3,5 +3,175 @@ Require Import SquidV.Bytes SquidV.PurgeModel.
 Require Import SquidV.gen.PurgeMethods_gen SquidV.gen.PurgeUri_gen.
 Local Open Scope N_scope.
 
+(* ------------------------------------------------------------------ byte lists, keys *)
 Lemma list_eqb_refl (a : bytes) : list_eqb a a = true.
 Proof. induction a as [|x a IH]; cbn [list_eqb]; [reflexivity|]. now rewrite N.eqb_refl, IH. Qed.
+
+Lemma list_eqb_eq (a b : bytes) : list_eqb a b = true <-> a = b.
+Proof.
+  revert b; induction a as [|x a IH]; intros [|y b]; cbn [list_eqb]; split; intros H; try reflexivity; try discriminate.
+  - apply andb_true_iff in H as [Hx Hr]. apply N.eqb_eq in Hx. apply IH in Hr. now subst.
+  - inversion H; subst. now rewrite N.eqb_refl, list_eqb_refl.
+Qed.
+
+Lemma list_eqb_sym (a b : bytes) : list_eqb a b = list_eqb b a.
+Proof.
+  revert b; induction a as [|x a IH]; intros [|y b]; cbn [list_eqb]; try reflexivity.
+  now rewrite N.eqb_sym, IH.
+Qed.
+
+Lemma key_eqb_refl (k : key) : key_eqb k k = true.
+Proof. unfold key_eqb. now rewrite N.eqb_refl, list_eqb_refl. Qed.
+
+Lemma key_eqb_sym (a b : key) : key_eqb a b = key_eqb b a.
+Proof. unfold key_eqb. now rewrite N.eqb_sym, list_eqb_sym. Qed.
+
+Lemma key_eqb_eq (a b : key) : key_eqb a b = true <-> a = b.
+Proof.
+  destruct a as [i u], b as [j v]; unfold key_eqb; cbn [fst snd]. split; intros H.
+  - apply andb_true_iff in H as [Hi Hu]. apply N.eqb_eq in Hi. apply list_eqb_eq in Hu. now subst.
+  - inversion H; subst. now rewrite N.eqb_refl, list_eqb_refl.
+Qed.
+
+(* ------------------------------------------------------------------ the store *)
+Lemma store_has_evict_same (k : key) (s : store) : store_has (evict_if_found k s) k = false.
+Proof.
+  unfold store_has, evict_if_found. induction s as [|e s IH]; cbn [filter existsb]; [reflexivity|].
+  destruct (key_eqb e k) eqn:E; cbn [negb]; [exact IH|].
+  cbn [existsb]. rewrite key_eqb_sym, E. exact IH.
+Qed.
+
+Lemma store_has_evict_mono (k k' : key) (s : store) :
+  store_has s k = false -> store_has (evict_if_found k' s) k = false.
+Proof.
+  unfold store_has, evict_if_found. induction s as [|e s IH]; cbn [filter existsb]; [reflexivity|].
+  intros H. apply orb_false_iff in H as [H1 H2].
+  destruct (negb (key_eqb e k')); cbn [existsb]; [rewrite H1; cbn [orb]|]; now apply IH.
+Qed.
+
+Lemma store_has_evict_other (k k' : key) (s : store) :
+  key_eqb k k' = false -> store_has (evict_if_found k' s) k = store_has s k.
+Proof.
+  intros Hne. unfold store_has, evict_if_found. induction s as [|e s IH]; cbn [filter existsb]; [reflexivity|].
+  destruct (key_eqb e k') eqn:E; cbn [negb existsb]; [|now rewrite IH].
+  apply key_eqb_eq in E; subst e. now rewrite Hne, IH.
+Qed.
+
+Lemma evict_all_mono (ks : list key) : forall s k, store_has s k = false -> store_has (evict_all ks s) k = false.
+Proof.
+  unfold evict_all. induction ks as [|k' ks IH]; intros s k H; cbn [fold_left]; [exact H|].
+  apply IH. now apply store_has_evict_mono.
+Qed.
+
+Lemma evicted_not_in_store (ks : list key) : forall s k, In k ks -> store_has (evict_all ks s) k = false.
+Proof.
+  induction ks as [|k' ks IH]; intros s k Hin; [destruct Hin|].
+  unfold evict_all; cbn [fold_left]. destruct Hin as [->|Hin].
+  - apply (evict_all_mono ks). apply store_has_evict_same.
+  - now apply IH.
+Qed.
+
+Lemma not_evicted_stays (ks : list key) : forall s k,
+  (forall k', In k' ks -> key_eqb k k' = false) -> store_has (evict_all ks s) k = store_has s k.
+Proof.
+  induction ks as [|k' ks IH]; intros s k H; [reflexivity|].
+  unfold evict_all; cbn [fold_left]. fold (evict_all ks (evict_if_found k' s)).
+  rewrite IH by (intros k2 H2; apply H; now right).
+  apply store_has_evict_other. apply H. now left.
+Qed.
+
+(* ------------------------------------------------------------------ method table *)
+Lemma attrs_of_prop (P : attrs -> bool) (tbl : list (N * bytes * attrs)) :
+  forallb (fun e => P (snd e)) tbl = true -> P (false, false, false) = true -> forall id, P (attrs_of tbl id) = true.
+Proof.
+  intros Ht Hd id. induction tbl as [|[[i img] a] r IH]; cbn [attrs_of]; [exact Hd|].
+  cbn [forallb snd] in Ht. apply andb_true_iff in Ht as [Ha Hr].
+  destruct (i =? id); [exact Ha| now apply IH].
+Qed.
+
+Lemma should_invalidate_purges (id : N) : should_invalidate id = true -> purges_others id = true.
+Proof.
+  unfold should_invalidate, purges_others.
+  pose proof (attrs_of_prop (fun a => implb (fst (fst a)) (snd (fst a))) pg_methods) as H.
+  specialize (H ltac:(vm_compute; reflexivity) ltac:(reflexivity) id). cbn beta in H.
+  destruct (fst (fst (attrs_of pg_methods id))); cbn [implb] in H; [intros _; exact H| discriminate].
+Qed.
+
+Lemma named_methods_invalidate :
+  should_invalidate pg_METHOD_POST = true /\ should_invalidate pg_METHOD_PUT = true /\
+  should_invalidate pg_METHOD_DELETE = true /\ should_invalidate pg_METHOD_OTHER = true.
+Proof. vm_compute. repeat split. Qed.
+
+Lemma safe_methods_do_not_purge :
+  purges_others pg_METHOD_GET = false /\ purges_others pg_METHOD_HEAD = false /\ purges_others pg_METHOD_CONNECT = false /\
+  purges_others pg_METHOD_NONE = false.
+Proof. vm_compute. repeat split. Qed.
+
+Lemma cacheable_are_get_head : cacheable_ids pg_methods = [pg_METHOD_GET; pg_METHOD_HEAD].
+Proof. vm_compute. reflexivity. Qed.
+
+Lemma cacheable_ids_spec (tbl : list (N * bytes * attrs)) (m : N) :
+  In m (cacheable_ids tbl) <-> exists img si po, In (m, img, (si, po, true)) tbl.
+Proof.
+  induction tbl as [|[[i img] [[si po] c]] r IH]; cbn [cacheable_ids].
+  - split; [intros []| intros (? & ? & ? & [])].
+  - destruct c; cbn [In]; rewrite IH; split.
+    + intros [->|(img' & si' & po' & H)]; [exists img, si, po; now left| exists img', si', po'; now right].
+    + intros (img' & si' & po' & [H|H]); [inversion H; now left| right; now exists img', si', po'].
+    + intros (img' & si' & po' & H); exists img', si', po'; now right.
+    + intros (img' & si' & po' & [H|H]); [inversion H| now exists img', si', po'].
+Qed.
+
+(* a method token that matches no table image (under caseCmp) is METHOD_OTHER, relaxed parser or not *)
+Lemma method_search_other (relaxed : bool) (tbl : list (N * bytes * attrs)) (s : bytes) :
+  forallb (fun e => negb (case_eqb (snd (fst e)) s)) tbl = true -> method_search relaxed tbl s = pg_METHOD_OTHER.
+Proof.
+  induction tbl as [|[[i img] a] r IH]; cbn [method_search forallb fst snd]; [reflexivity|].
+  intros H. apply andb_true_iff in H as [H1 H2]. apply negb_true_iff in H1. rewrite H1.
+  destruct (i =? pg_METHOD_NONE); now apply IH.
+Qed.
+
+Lemma unknown_method_is_other (relaxed : bool) (s : bytes) :
+  s <> [] -> forallb (fun e => negb (case_eqb (snd (fst e)) s)) pg_methods = true ->
+  method_of_image relaxed s = pg_METHOD_OTHER.
+Proof.
+  intros Hs H. unfold method_of_image. destruct s as [|c s]; [congruence|]. now apply method_search_other.
+Qed.
+
+(* ------------------------------------------------------------------ Uri caches *)
+Definition uri_abs_text (u : uri) : bytes := u_front u ++ uri_encode pg_PathChars (uri_path u).
+Definition caches_ok (u : uri) : Prop :=
+  (u_abspath_cache u = [] \/ u_abspath_cache u = uri_encode pg_PathChars (uri_path u)) /\
+  (u_abs_cache u = [] \/ u_abs_cache u = uri_abs_text u).
+
+Lemma nonempty_false (l : bytes) : nonempty l = false -> l = [].
+Proof. destruct l; [reflexivity| discriminate]. Qed.
+
+Lemma uri_absolute_path_ok (u : uri) : caches_ok u ->
+  fst (uri_absolute_path u) = uri_encode pg_PathChars (uri_path u) /\ caches_ok (snd (uri_absolute_path u)) /\
+  u_front (snd (uri_absolute_path u)) = u_front u /\ u_path (snd (uri_absolute_path u)) = u_path u /\
+  u_httpx (snd (uri_absolute_path u)) = u_httpx u /\ u_urn (snd (uri_absolute_path u)) = u_urn u /\
+  u_abs_cache (snd (uri_absolute_path u)) = u_abs_cache u.
+Proof.
+  intros [Hp Ha]. unfold uri_absolute_path. destruct (nonempty (u_abspath_cache u)) eqn:E; cbn [fst snd].
+  - destruct Hp as [Hp|Hp]; [rewrite Hp in E; discriminate|]. repeat split; try assumption. now right.
+  - repeat split; cbn; try reflexivity.
+    + now right.
+    + exact Ha.
+Qed.
+
+Lemma uri_absolute_ok (u : uri) : caches_ok u ->
+  fst (uri_absolute u) = uri_abs_text u /\ caches_ok (snd (uri_absolute u)) /\
+  u_front (snd (uri_absolute u)) = u_front u /\ u_path (snd (uri_absolute u)) = u_path u /\
+  u_httpx (snd (uri_absolute u)) = u_httpx u /\ u_urn (snd (uri_absolute u)) = u_urn u /\
+  (fst (uri_absolute u) <> [] -> u_abs_cache (snd (uri_absolute u)) = fst (uri_absolute u)).
+Proof.
+  intros Hok. pose proof Hok as [Hp Ha]. unfold uri_absolute. destruct (nonempty (u_abs_cache u)) eqn:E; cbn [fst snd].
+  - destruct Ha as [Ha|Ha]; [rewrite Ha in E; discriminate|]. repeat split; try assumption. now intros _.
+  - destruct (uri_absolute_path_ok u Hok) as (H1 & H2 & H3 & H4 & H5 & H6 & H7).
+    destruct (uri_absolute_path u) as [ap u1] eqn:Eap; cbn [fst snd] in *.
+    repeat split; cbn; try assumption.
+    + unfold uri_abs_text. now rewrite H3, H1.
+    + destruct H2 as [H2 _]. unfold uri_path in *; cbn. unfold uri_path in H2. rewrite H4, H5 in *. exact H2.
+    + right. unfold uri_abs_text, uri_path; cbn. rewrite H1, H3. unfold uri_path. now rewrite H4, H5.
+Qed.
